@@ -94,6 +94,7 @@ PROPS["C10"] = {
     "lean": ["SioVerif.Props.C10"],
     "components": ["siocodec", "timed:TestMalformed"],
     "facts": [],
+    "timeout": {"quick": 300, "thorough": 2400},
     "rule": "every byte string of length <=4 (thorough: <=5) over the 18-symbol alphabet 0256 7-/,\"\\[]{}:a1t fed to the real Add under recover, every finished packet "
             "decoded against 6 handler signature families (typed Binary, map[string]any, any, struct, no args, string+Binary); grammar-aware mutations of valid binary "
             "packets (placeholder numbers incl. negative/2^31/2^63/1e300/1.5, wrong attachment counts, truncated JSON); random multi-packet frame sequences with "
